@@ -15,7 +15,7 @@
 (***************************************************************************)
 EXTENDS Containers, TLC
 
-CONSTANTS Xs, Ks, K0, MaxLen, Dual, Depth, WrongHints, Emit
+CONSTANTS Xs, Ks, K0, MaxLen, Dual, Depth, WrongHints, Emit, QueryEnds
 
 VARIABLES c, hist
 vars == <<c, hist>>
@@ -47,7 +47,7 @@ DoRefill == Can /\ \E c2 \in Refill(c) : c' = c2 /\ hist' = Append(hist, <<"refi
 DoMaxG   == Can /\ \E o \in GetMaxG(c) : c' = o[2] /\ hist' = Append(hist, <<"maxg">>)
 DoMaxL   == Can /\ Dual /\ \E o \in GetMaxL(c) : c' = o[2] /\ hist' = Append(hist, <<"maxl">>)
 (* queries: every insertable coordinate, the two end coordinates, one below the first and one above the last item *)
-Queries == Xs \cup {X0, X1, "-1", "2"}
+Queries == IF QueryEnds THEN Xs \cup {X0, X1, "-1", "2"} ELSE Xs \cup {"-1"}      \* (the deepest history enumerations keep one outside query)
 DoFind   == Can /\ \E x \in Queries : c' = c /\ hist' = Append(hist, <<"find", x>>)
 
 Next == DoInsert \/ DoSetR \/ DoClear \/ DoRefill \/ DoMaxG \/ DoMaxL \/ DoFind
